@@ -276,3 +276,129 @@ class NextRound(Job):
 
 
 JOBS["C44"].append(NextRound())
+
+
+# ---------------------------------------------------------------------------------------------------------------
+# time queries: get_current_time_v2 / compare_current_time_v2 agree with the recorded clock
+class TimeQuery(Job):
+    crate = "radix-engine"
+    query_timeout_s = 60
+
+    def __init__(self, op):
+        self.op = op
+        self.name = "c44m::consensus_manager_%s_current_time_v2" % op
+        self.what = {
+            "get": "ConsensusManagerBlueprint::get_current_time_v2 for every stored millisecond / minute timestamp: second "
+                   "precision reports the stored milliseconds divided by 1000 (truncated), minute precision the stored minute "
+                   "count times 60",
+            "compare": "ConsensusManagerBlueprint::compare_current_time_v2 for every stored clock, every instant and all five "
+                       "operators: second precision compares the instant with the stored milliseconds / 1000, minute precision "
+                       "compares the instant's minute (saturated to the i32 range) with the stored minute -- i.e. the answer "
+                       "agrees with what get_current_time reports at that precision",
+        }[op]
+        self.cover_labels = ["second precision", "minute precision"] + (["true answer", "false answer"] if op == "compare" else [])
+
+    @property
+    def env_overrides(self):
+        R = _re.compile
+
+        def ok(ret_ty, v):
+            return EnumV(ret_ty, 0, {0: [v]})
+
+        def m_read(interp, path, args, ret_ty, callee):
+            d = self._d
+            if "MilliTimestamp" in callee:
+                return ok(ret_ty, StructV("ProposerMilliTimestampSubstate", [IntV(d["M"], "i64")]))
+            return ok(ret_ty, StructV("ProposerMinuteTimestampSubstate", [IntV(d["m"], "i32")]))
+        return [(R(r"^<ConsensusManagerField as Into<u8>>::into$"), lambda i, p, a, r, c: IntV(0, "u8")),
+                (R(r"SystemActorApi<RuntimeError>>::actor_open_field$"), lambda i, p, a, r, c: ok(r, IntV(1, "u32"))),
+                (R(r"SystemFieldApi<RuntimeError>>::field_read_typed::<"), m_read),
+                (R(r"SystemFieldApi<RuntimeError>>::field_close$"), lambda i, p, a, r, c: ok(r, UnitV())),
+                (R(r"FieldPayload::fully_update_and_into_latest_version$"), lambda i, p, a, r, c: a[0])]
+
+    def locate(self, prog):
+        return find_function(prog, "consensus_manager/consensus_manager.rs", self.op + "_current_time_v2",
+                             nparams=4 if self.op == "compare" else 2)
+
+    def inputs(self):
+        names = ["M", "m", "prec"] + (["other", "cmp"] if self.op == "compare" else [])
+        d = {k: z3.Int(k) for k in names}
+        pre = [d["M"] >= I64_LO, d["M"] <= I64_HI, d["m"] >= -(1 << 31), d["m"] < (1 << 31), d["prec"] >= 0, d["prec"] <= 1]
+        if self.op == "compare":
+            pre += [d["other"] >= I64_LO, d["other"] <= I64_HI, d["cmp"] >= 0, d["cmp"] <= 4]
+        return d, pre
+
+    def setup_path(self, path, inp):
+        self._d = {k: lit(v) for k, v in inp.items()}
+        path.frames["job"] = {"api": StructV("Api", [])}
+
+    def args(self, inp):
+        d = {k: lit(v) for k, v in inp.items()}
+        prec = EnumV("TimePrecisionV2", d["prec"], {0: [], 1: []})
+        api = RefV("&mut Y", "job", "api", ())
+        if self.op == "get":
+            return [prec, api]
+        return [StructV("Instant", [IntV(d["other"], "i64")]), prec, EnumV("TimeComparisonOperator", d["cmp"], {k: [] for k in range(5)}), api]
+
+    def extract(self, v):
+        ok = v.discr == 0
+        if self.op == "get":
+            val = v.variants[0][0].fields[0].term if v.variants.get(0) else z3.IntVal(0)
+        else:
+            val = z3.If(v.variants[0][0].term, 1, 0) if v.variants.get(0) else z3.IntVal(0)
+        return {"some": ok, "val": z3.If(ok, val, 0)}
+
+    def native(self, nat, vals):
+        from mir_jobs import parse_native_opt
+        if self.op == "get":
+            return parse_native_opt(nat.call("cm_get_time", vals["M"], vals["m"], vals["prec"]))
+        return parse_native_opt(nat.call("cm_compare", vals["M"], vals["m"], vals["prec"], vals["other"], vals["cmp"]))
+
+    @staticmethod
+    def _tdiv(a, b):
+        q = a / b                              # z3: floor for positive b
+        return z3.If(z3.And(a < 0, a % b != 0), q + 1, q)
+
+    def post(self, inp, res):
+        d = {k: lit(v) for k, v in inp.items()}
+        sec_now = self._tdiv(d["M"], 1000)
+        min_now = d["m"] * 60
+        ok, val = lit(res["some"]), lit(res["val"])
+        if self.op == "get":
+            return [("the query never fails", ok),
+                    ("the reported time is the recorded clock at the requested precision",
+                     val == z3.If(d["prec"] == 1, sec_now, min_now))]
+        o = d["other"]
+        # minute of the compared instant: seconds * 1000 / 60000 truncated, saturated when it does not fit
+        fits_ms = z3.And(o * 1000 >= I64_LO, o * 1000 <= I64_HI)
+        omin = self._tdiv(o * 1000, 60000)
+        fits_min = z3.And(fits_ms, omin >= -(1 << 31), omin < (1 << 31))
+        omin_sat = z3.If(fits_min, omin, z3.If(o < 0, -(1 << 31), (1 << 31) - 1))
+        lhs = z3.If(d["prec"] == 1, sec_now, min_now)
+        rhs = z3.If(d["prec"] == 1, o, omin_sat * 60)
+        c = d["cmp"]
+        truth = z3.If(c == 0, lhs == rhs, z3.If(c == 1, lhs < rhs, z3.If(c == 2, lhs <= rhs, z3.If(c == 3, lhs > rhs, lhs >= rhs))))
+        return [("the query never fails", ok),
+                ("the answer is the comparison of the recorded clock (at that precision) with the given instant",
+                 (val == 1) == truth)]
+
+    def covers(self, inp, res):
+        d = {k: lit(v) for k, v in inp.items()}
+        out = [("second precision", d["prec"] == 1), ("minute precision", d["prec"] == 0)]
+        if self.op == "compare":
+            out += [("true answer", lit(res["val"]) == 1), ("false answer", lit(res["val"]) == 0)]
+        return out
+
+    def vectors(self, rng):
+        out = []
+        for _ in range(40):
+            M = rng.choice([0, 1669663688996, 59999, 60000, -1, -60001, 10 ** 15])
+            d = {"M": M, "m": rng.choice([M // 60000 if abs(M // 60000) < 2 ** 31 else 0, 0, 27827728, -5]), "prec": rng.randrange(2)}
+            if self.op == "compare":
+                d["other"] = rng.choice([M // 1000, M // 1000 - 1, M // 1000 + 1, (M // 60000) * 60, 0, I64_HI, I64_LO, 253402300799])
+                d["cmp"] = rng.randrange(5)
+            out.append(d)
+        return out
+
+
+JOBS["C44"] += [TimeQuery("get"), TimeQuery("compare")]
